@@ -117,7 +117,7 @@ func runC17(c c17Case, barriers int) (*vh.Violation, vh.Outcome, bool) {
 				<-q
 			}
 		case "request":
-			tx := []byte(fmt.Sprintf("tx-%d", o.Tx))
+			tx := c17Tx(o.Tx)
 			req := &gossipv1.ObservationRequest{ChainId: o.Chain, TxHash: tx}
 			before := map[vaa.ChainID]int{}
 			for ch, q := range queues {
@@ -206,6 +206,22 @@ func runC17(c c17Case, barriers int) (*vh.Violation, vh.Outcome, bool) {
 	return nil, out, false
 }
 
+// c17Tx: transaction ids of different shapes. 0/1 share their last 32 bytes, 2/3 differ by a leading zero byte: all
+// are different transactions.
+func c17Tx(k int) []byte {
+	switch k {
+	case 0:
+		return vh.Expand(1717, 32)
+	case 1:
+		return append([]byte{0x01}, vh.Expand(1717, 32)...)
+	case 2:
+		return []byte{0xe5, 0x9c}
+	case 3:
+		return []byte{0x00, 0xe5, 0x9c}
+	}
+	return []byte(fmt.Sprintf("tx-%d", k))
+}
+
 func qlens(qs map[vaa.ChainID]chan *gossipv1.ObservationRequest) string {
 	s := ""
 	for ch, q := range qs {
@@ -224,16 +240,16 @@ func genC17(t *rapid.T) c17Case {
 			return []c17Op{{K: "drain", Chain: rapid.SampledFrom(c17Known).Draw(t, "chain")}}
 		case "flood":
 			ch := rapid.SampledFrom(c17Known).Draw(t, "chain")
-			tx := rapid.IntRange(0, 2).Draw(t, "tx")
+			tx := rapid.IntRange(0, 5).Draw(t, "tx")
 			return []c17Op{{K: "drain", Chain: ch}, {K: "request", Chain: ch, Tx: tx}, {K: "flood", Chain: rapid.SampledFrom(c17Known).Draw(t, "fchain"), Secs: rapid.SampledFrom([]int{40, 300, 1100, 1600}).Draw(t, "n")},
 				{K: "advance", Secs: rapid.IntRange(1, 600).Draw(t, "in")}, {K: "request", Chain: ch, Tx: tx}}
 		case "window": // forward, repeat inside the window, let the window lapse, repeat
 			ch := rapid.SampledFrom(c17Known).Draw(t, "chain")
-			tx := rapid.IntRange(0, 2).Draw(t, "tx")
+			tx := rapid.IntRange(0, 5).Draw(t, "tx")
 			return []c17Op{{K: "drain", Chain: ch}, {K: "request", Chain: ch, Tx: tx}, {K: "advance", Secs: rapid.IntRange(1, 660).Draw(t, "in")},
 				{K: "request", Chain: ch, Tx: tx}, {K: "drain", Chain: ch}, {K: "advance", Secs: rapid.IntRange(1081, 1500).Draw(t, "out")}, {K: "request", Chain: ch, Tx: tx}}
 		}
-		return []c17Op{{K: "request", Chain: rapid.SampledFrom([]uint32{1, 1, 2, 2, 4, 3, 65537, 65538, 131074}).Draw(t, "chain"), Tx: rapid.IntRange(0, 2).Draw(t, "tx")}}
+		return []c17Op{{K: "request", Chain: rapid.SampledFrom([]uint32{1, 1, 2, 2, 4, 3, 65537, 65538, 131074}).Draw(t, "chain"), Tx: rapid.IntRange(0, 5).Draw(t, "tx")}}
 	})
 	for _, g := range rapid.SliceOfN(op, 2, 20).Draw(t, "ops") {
 		c.Ops = append(c.Ops, g...)
